@@ -26,7 +26,7 @@ def gen_items(rng, n_items, keys, marks=None, sleep=False):
         for _ in range(int(rng.integers(0, 5))):
             ks.append([hx(keys[int(rng.integers(0, len(keys)))]), pick(rng, [1, 1, 2, 3, 10])])
         items.append({"i": i, "keys": ks, "records": int(rng.integers(0, 4)), "mark": (marks or {}).get(i),
-                      "sleep_ms": int(rng.integers(0, 300)) if sleep else 0})
+                      "sleep_ms": int(rng.integers(0, 300)) if sleep else 0, "ret": pick(rng, ["int", "int", "np.int64", "np.uint32"])})
     return items
 
 
